@@ -838,3 +838,91 @@ for _c in _pss_sign_contracts('<modBits=1 mod 8>', lambda ns: (_modbits(ns) - 1)
                               'same statement for modBits = 1 mod 8: EXPECTED TO FAIL on the pinned tree (EM has k-1 bytes, the '
                               'raw operation demands k: MessageTooLongError)'):
     _c.variant = 'modbits-1-mod-8'
+
+
+# --- verify(padding='pss') / sign() front ends -------------------------------------------------
+def _verify_pss_params(h):
+    return {'self': rsa_key(), 'sigBytes': T.bytes(), 'bytes': T.bytes(), 'padding': T.const('pss'),
+            'hashAlg': T.const(h), 'saltLen': T.int()}
+
+
+def _vp_spec(ns):
+    sub = type('N', (), {})()
+    sub.self, sub.f, sub.S, sub.mHash, sub.hAlg, sub.sLen = ns.self, ns.f, ns.sigBytes, ns.bytes, ns.hashAlg, ns.saltLen
+    return _pssv_spec(sub)
+
+
+for _h in PSS_HASHES:
+    _c = contract(RK + 'verify', name='RSAKey.verify[pss-%s]' % _h, params=_verify_pss_params(_h),
+                  requires=lambda ns: S.And(kN(ns) > 1, _modbits(ns) <= EMBITS_MAX, ns.saltLen >= 0, _not_1_mod_8(ns)),
+                  result=T.bool(), raises={},
+                  ensures=lambda ns: S.iff(ns.result, _vp_spec(ns.old)),
+                  opts={'budget_factor': 4}, prop='C10',
+                  doc='verify(pss) is True exactly when RFC 8017 8.1.2 accepts (modBits != 1 mod 8); never raises')
+    _c.variant = 'pss-' + _h
+
+
+contract(RK + '_raw_pkcs1_sign',
+         params={'self': rsa_key(), 'bytes': T.bytes()},
+         requires=lambda ns: S.And(kN(ns) > 1, kD(ns) != 0, kK(ns) >= S.len_(ns.bytes) + 11),
+         result=T.bytes(), raises={},
+         ensures=lambda ns: S.And(ns.result == priv_bytes(ns.old, emsa_pkcs1(kK(ns.old), ns.bytes)),
+                                  S.len_(ns.result) == kK(ns.old)),
+         prop='C10',
+         doc='RFC 8017 8.2.1: S = I2OSP(RSASP1(OS2IP(00 01 FF..FF 00 T)), k); no error when k >= |T| + 11 '
+             '(the encoded message is below the modulus)')
+
+for _h in ('sha256', 'sha1', 'sha384', 'sha512'):
+    _c = contract(RK + 'sign', name='RSAKey.sign[pkcs1-%s]' % _h,
+                  params={'self': rsa_key(), 'bytes': T.bytes(), 'padding': T.const('pkcs1'), 'hashAlg': T.const(_h),
+                          'saltLen': T.none()},
+                  requires=(lambda hh: lambda ns: S.And(kN(ns) > 1, kD(ns) != 0,
+                                                        kK(ns) >= S.len_(ns.bytes) + len(DER[hh]) + 11))(_h),
+                  result=T.bytes(), raises={},
+                  ensures=(lambda hh: lambda ns: S.And(
+                      ns.result == priv_bytes(ns.old, emsa_pkcs1(kK(ns.old), S.cat(lit(DER[hh]), ns.bytes))),
+                      S.len_(ns.result) == kK(ns.old)))(_h),
+                  prop='C10', doc='sign(pkcs1, %s) = RSASP1 of EMSA-PKCS1-v1_5(DigestInfo(%s) || hash), k bytes' % (_h, _h))
+    _c.variant = 'pkcs1-' + _h
+
+
+# ===========================================================================
+# differential runs and notes
+
+KQ = 'tlslite/keyexchange.py:'
+REG.xchecks.append({'prop': 'C11', 'module': 'specs.rsa', 'name': 'rsa_decrypt', 'function': RK + 'decrypt'})
+REG.xchecks.append({'prop': 'C11', 'module': 'specs.rsa', 'name': 'rsa_kex_premaster',
+                    'function': KQ + 'RSAKeyExchange.processClientKeyExchange'})
+REG.xchecks.append({'prop': 'C10', 'module': 'specs.rsa', 'name': 'pkcs1_verify', 'function': RK + 'verify'})
+REG.xchecks.append({'prop': 'C10', 'module': 'specs.rsa', 'name': 'rsa_pss', 'function': RK + 'RSASSA_PSS_sign'})
+REG.xchecks.append({'prop': 'C10', 'module': 'specs.rsa', 'name': 'rsa_pss', 'function': RK + 'RSASSA_PSS_verify'})
+REG.xchecks.append({'prop': 'C10', 'module': 'specs.rsa', 'name': 'emsa_pss', 'function': RK + 'EMSA_PSS_verify'})
+
+for _p in ('C11', 'C10'):
+    REG.note(_p, 'trusted', 'raw RSA private operation (Python_RSAKey._rawPrivateKeyOp: CRT + blinding) is the uninterpreted '
+                            'RsaPriv(n, d, m) with 0 <= result < n; pow(c, e, n) is the uninterpreted modexp with 0 <= result < n')
+    REG.note(_p, 'trusted', 'pyvc/models_crypto.py: secureHash/secureHMAC are uninterpreted Hash(alg, data) / Hmac(HmacKey(alg, key), data) '
+                            'with the standard output lengths; getRandomBytes(n) returns n fresh bytes (recorded as an event); '
+                            'numBits = BitLen with 2^(c-1) <= x <=> BitLen(x) >= c (c <= 40), monotone, 256^(k-1) <= x < 256^k for '
+                            'k = numBytes(x); numberToByteArray(x, k) = s_be(x, k) (low-order k bytes), int.from_bytes = s_val; '
+                            'a byte string whose first octet is < 2^t has a value of at most 8(len-1)+t bits')
+    REG.note(_p, 'trusted', 'pyvc/iters.py: iterator objects (iter/enumerate/next/zip(it, it)) as heap objects with a position; '
+                            'comprehensions over symbolic-length sequences as element-wise defined fresh sequences; '
+                            'a symbolic shift amount is case-split over 0..64')
+REG.note('C11', 'trusted', 'DecPrf / Cand / pow2 / Mgf1 are definitional extensions (each fixed by its defining axiom); ct_* helpers by their '
+                           'bit-vector-proved contracts (contracts/c12_cbc_check.py)')
+REG.note('C11', 'assumptions', 'key: n > 0, d > 0 (private key present), key_type "rsa", 11 <= k <= 8191 bytes (the PRF encodes 8k in two '
+                               'octets; PKCS#1 v1.5 needs k >= 11); _key_hash is unset/None or equals SHA-256(I2OSP(d, k)) (established by '
+                               'decrypt itself, never written elsewhere)')
+REG.note('C11', 'assumptions', 'O-defect-independent is structural: the synthetic branch of the specification (DecSpec.result_synthetic) does '
+                               'not mention the decrypted block EM, only (key hash, ciphertext, k)')
+REG.note('C11', 'not_built', 'ClientKeyExchange.parse (RSA branch) framing-only rejections; wire uniformity of _serverCertKeyExchange between '
+                             'processClientKeyExchange and _getFinished (syntactic data-flow obligation); constant-time behaviour is not claimed')
+REG.note('C10', 'assumptions', 'PKCS#1 v1.5 exactness is proved for k >= |T| + 11 (RFC 8017 9.2 step 3); the complementary case is the separate '
+                               'obligation verify[pkcs1-short-modulus] (fails on the pinned tree: class pkcs1-short-ps-accepted)')
+REG.note('C10', 'assumptions', 'PSS: emBits <= 2^24 (MGF1 "mask too long" unreachable), sLen >= 0; RSASSA-PSS contracts are split by '
+                               'modBits mod 8: != 1 proved, == 1 expected to fail on the pinned tree (class pss-modbits-1-mod-8)')
+REG.note('C10', 'not_built', 'PSS sign/verify round trip as one lemma (needs (x^y)^y == x under the leading-bit mask and RSA correctness '
+                             'RsaPub(RsaPriv(m)) == m); covered by the bounded differential run rsa_pss for every modBits mod 8')
+REG.note('C10', 'not_built', '_addPKCS1Padding block type 2 (encryption padding, random non-zero filter loop); hashAndSign; rsa-pss key refusing '
+                             'pkcs1 in sign(); Python_RSAKey._rawPrivateKeyOp CRT/blinding algebra (Lean lemmas of DESIGN.md)')
